@@ -21,7 +21,7 @@ import schedtrace as st
 
 DRIVER = "C07"
 RULE = ("programs: 10 DAG shapes incl. multi-output (unstack, qr), region stores (aligned, 35% with source chunks != target "
-        "chunks), to_zarr, rechunk, reductions, fused/unfused (optimize_graph on/off), create-arrays always; configurations: "
+        "chunks — must hold since the source is rechunked), to_zarr, rechunk, reductions, fused/unfused (optimize_graph on/off), create-arrays always; configurations: "
         "executor in {single-threaded, threads, processes(sampled)} x compute_arrays_in_parallel x batch_size{None,1,2,3} x "
         "max_workers{1,2,4} x resume(12%); grids for ChunkKeys: rank 0-4, 0-4 blocks per axis, every start, stop in "
         "[start, n+1]; non-trivial = plan with >= 2 executed ops or a grid with > 1 block; distinct by request / case")
@@ -32,15 +32,10 @@ ASSUMPTIONS = [
 ]
 TRUSTED = ["modelled not verified: aiostream stream draining / merging, concurrent.futures pools (observed through the callback trace only)"]
 
-KNOWN_REGION = "region-store-chunk-mismatch-count"
-
-
 def classify(case, what=""):
-    """Known genuine defect: `to_zarr/store(..., region=…)` with a source chunked differently from the target:
-    `_store_array` advertises num_tasks=source.npartitions but iterates over the target blocks of the region."""
-    p = case.get("program", {})
-    if p.get("kind") == "region" and list(p.get("chunks", [])) != list(p.get("tchunks", [])):
-        return KNOWN_REGION
+    """No known defects: the region-store count mismatch (source chunks != target chunks) was fixed in the repository
+    (commit ba97b91, `_store_array` rechunks the source); mismatched-chunk region programs are must-hold cases and a
+    recurrence is a violation."""
     return None
 
 
@@ -57,7 +52,7 @@ def gen_cases(rng, n, nproc):
         ex = "single-threaded" if rng.random() < 0.3 else "threads"
         cases.append((prog, st.gen_config(rng, ex)))
     for i in range(nproc):
-        prog = st.gen_program(rng, rng.choice(["unstack", "qr", "mixed", "region", "reduce"]))
+        prog = st.gen_program(rng, rng.choice(["unstack", "qr", "mixed", "region", "reduce"]), mismatch=True)
         cfg = st.gen_config(rng, "processes")
         cfg["max_workers"] = rng.choice([1, 2])
         cases.append((prog, cfg))
